@@ -343,10 +343,18 @@ class Schema(dict, metaclass=LogicalMeta):
 
         if field.dependants:
             # need to update the dependant properties
-            for dep in field.dependants:
-                dep_field = self.__parser__.get_field(dep)
-                if dep_field and dep_field.property:
-                    self.__coerce_property__(dep_field, context=context)
+            self.__update_dependants__(field, context=context)
+
+    def __update_dependants__(self, field: ParserField, context: RuntimeContext, updated: set = None):
+        # a dependant property may itself be a dependency of further properties
+        updated = set() if updated is None else updated
+        for dep in field.dependants:
+            dep_field = self.__parser__.get_field(dep)
+            if dep_field and dep_field.property and dep not in updated:
+                updated.add(dep)
+                self.__coerce_property__(dep_field, context=context)
+                if dep_field.dependants:
+                    self.__update_dependants__(dep_field, context=context, updated=updated)
 
     def __setitem__(self, alias: str, value):
         if self.__options__.immutable:
